@@ -385,22 +385,26 @@ func FilterPMTPacketsToPids(packets []*packet.Packet, pids []int) ([]*packet.Pac
 		filteredPMT.Write(pmtPayload[programInfoLengthOffset+2 : programInfoLengthOffset+2+programInfoLength])
 	}
 
-	for offset := programInfoLengthOffset + 2 + programInfoLength; offset < PSIHeaderLen+sectionLength-pmtEsDescriptorStaticLen-CrcLen; {
-		if len(pmtPayload) < int(offset+pmtEsDescriptorStaticLen) {
+	// offsets are ints: in 16 bit arithmetic the bound wraps around for a section_length below 5,
+	// and an offset beyond 65535 wraps back into the payload and never reaches the bound
+	esLen := int(pmtEsDescriptorStaticLen)
+	end := int(PSIHeaderLen) + int(sectionLength) - esLen - int(CrcLen)
+	for offset := int(programInfoLengthOffset) + 2 + int(programInfoLength); offset < end; {
+		if len(pmtPayload) < offset+esLen {
 			return nil, gots.ErrPMTParse
 		}
 		elementaryPid := int(pmtPayload[offset+1]&0x1f)<<8 | int(pmtPayload[offset+2])
-		infoLength := uint16(pmtPayload[offset+3]&0x0f)<<8 | uint16(pmtPayload[offset+4])
-		if len(pmtPayload) < int(offset+pmtEsDescriptorStaticLen+infoLength) {
+		infoLength := int(pmtPayload[offset+3]&0x0f)<<8 | int(pmtPayload[offset+4])
+		if len(pmtPayload) < offset+esLen+infoLength {
 			return nil, gots.ErrPMTParse
 		}
 
 		// This is an ES PID we want to keep
 		if pidIn(pids, elementaryPid) {
 			// write out the whole es info
-			filteredPMT.Write(pmtPayload[offset : offset+pmtEsDescriptorStaticLen+infoLength])
+			filteredPMT.Write(pmtPayload[offset : offset+esLen+infoLength])
 		}
-		offset += pmtEsDescriptorStaticLen + infoLength
+		offset += esLen + infoLength
 	}
 
 	// Create the new section length
